@@ -527,6 +527,37 @@ def run(ck, facts):
                               "the C++ callback conversion no longer heap-moves the std::function with c_delete as destructor: %s" % lit[:200], C.loc(f, arm.get("ln")))
     if okcb is None:
         ck.bad("R5", "cpp/gen_cpp_to_c_for_type/Callback", "Callback arm not found", C.loc(f))
+    # every class of the C++ runtime that releases something in its destructor (`delete member`, `*_destroy(member)`) is not copyable member-wise: a copy
+    # constructor that copies the owning pointer makes two objects release the same Rust value
+    rth_all = C.read_repo("tool/templates/cpp/runtime.hpp.jinja")
+    nown = 0
+    for mcl in re.finditer(r"\b(?:struct|class)\s+(\w+)[^;{]*\{", rth_all):
+        name_ = mcl.group(1)
+        depth_, j_ = 1, mcl.end()
+        while j_ < len(rth_all) and depth_:
+            depth_ += {"{": 1, "}": -1}.get(rth_all[j_], 0)
+            j_ += 1
+        body_ = rth_all[mcl.end():j_]
+        dtor = re.search(r"~\s*%s\s*\(\s*\)[^{;]*\{([^}]*)\}" % re.escape(name_), body_)
+        if not dtor:
+            continue
+        released = re.findall(r"\bdelete\s+(?:\[\]\s*)?(\w+)|\w+_destroy\s*\(\s*(\w+)", dtor.group(1))
+        members = {a_ or b_ for a_, b_ in released}
+        if not members:
+            continue
+        nown += 1
+        copy_ctor = re.search(r"\b%s\s*\(\s*const\s+%s\s*&\s*(\w*)\s*\)\s*([^;{]*)(;|\{)" % (re.escape(name_), re.escape(name_)), body_)
+        shallow = bool(copy_ctor) and "delete" not in copy_ctor.group(2) and any(re.search(r"\b%s\s*\(\s*%s\.%s\s*\)" % (re.escape(m_), re.escape(copy_ctor.group(1) or "o"), re.escape(m_)), copy_ctor.group(2)) for m_ in members)
+        implicit = copy_ctor is None and not re.search(r"\b%s\s*\(\s*%s\s*&&" % (re.escape(name_), re.escape(name_)), body_)
+        ck.expect(not shallow and not implicit, "R5", "cpp/runtime/%s-owner-not-shallow-copyable" % name_, "", "`%s` releases %s in its destructor and can be copied member-wise (%s): every copy releases the same Rust "
+                  "object again" % (name_, sorted(members), "user-written copy constructor copies the pointer" if shallow else "implicit copy constructor"), "tool/templates/cpp/runtime.hpp.jinja")
+    ck.note("R5: %d classes of runtime.hpp release a member in their destructor" % nown)
+    # the iterator adapter keeps the Rust iterator in a shared_ptr (it must be copyable: InputIterator): not a raw owning pointer
+    it_ = re.search(r"struct\s+next_to_iter_helper\s*\{(.*?)\n\};", rth_all, re.S)
+    if it_:
+        raw_owner = re.search(r"\bT\s*\*\s*_?\w+\s*;", it_.group(1)) is not None and "delete" in it_.group(1)
+        ck.expect(not raw_owner, "R5", "cpp/runtime/next_to_iter_helper-shared-ownership", "shared_ptr member", "the copyable iterator adapter owns the Rust iterator through a raw pointer it deletes: "
+                  "copies (std::equal, `auto it2 = it`) destroy it twice", "tool/templates/cpp/runtime.hpp.jinja")
     rth = C.read_repo("tool/templates/cpp/runtime.hpp.jinja")
     mcd = re.search(r"static\s+void\s+c_delete\s*\(\s*const\s+void\s*\*\s*(\w+)\s*\)\s*\{(.*?)\}", rth, re.S)
     ck.expect(bool(mcd) and re.search(r"\bdelete\s+reinterpret_cast<\s*const\s+function_t\s*\*\s*>\s*\(\s*%s\s*\)" % (mcd.group(1) if mcd else "x"), mcd.group(2)) is not None,
